@@ -435,6 +435,9 @@ def expect(c, w, L):
             return Exp("may", {S[0]: inv}, label="temporaries-exceed-BN_BIT_LEN")
         if nd(inv, w) > cn(0):
             return Exp("fail", {S[0]: inv}, label="result-wider-than-destination")
+        if c.x[0] == 2 and (1 + 2 * max(nd(a, w), nd(m, w))) * w > L:
+            # bn_mod_inv2 multiplies the quotient by a cofactor in place: 2*digits+1 digits of temporary
+            return Exp("may", {S[0]: inv}, label="temporaries-exceed-BN_BIT_LEN")
         if c.x[0] == 2 and cn(0) < 2 * nd(m, w) + 1:
             return Exp("may", {S[0]: inv}, label="tight")
         return Exp("must", {S[0]: inv})
